@@ -246,6 +246,65 @@ def _array_evidence(fn, p):
     return False
 
 
+def _preorder(fn):
+    pos = {}
+    k = [0]
+
+    def go(n):
+        pos[id(n)] = k[0]
+        k[0] += 1
+        for c in ast.iter_child_nodes(n):
+            go(c)
+    go(fn)
+    return pos
+
+
+def _is_memo_decorator(d):
+    t = dotted(d.func if isinstance(d, ast.Call) else d) or ''
+    return t.split('.')[-1] in ('lru_cache', 'cache')
+
+
+def memoised_file_readers(run, rule, mi):
+    """A function memoised with functools.lru_cache / cache whose body opens a file caches the *content of the file*.  Every function of
+    the module that writes files has to leave that memo empty of pre-write content: a cache_clear() after its last write, or one before
+    it with no call of the memoised reader in between (which would put the old content straight back)."""
+    readers = {n: f for n, f in dict.items(mi.functions) if any(_is_memo_decorator(d) for d in f.decorator_list)
+               and any(isinstance(c, ast.Call) and dotted(c.func) == 'open' for c in ast.walk(f))}
+    n = 0
+    if not readers:
+        return 0
+    fns = [(fname, f) for fname, f in dict.items(mi.functions)] + \
+          [('%s.%s' % (cn, m.name), m) for cn, c in mi.classes.items() for m in c.body if isinstance(m, ast.FunctionDef)]
+    for fname, f in fns:
+        if fname in readers:
+            continue
+        writes = []
+        for c in ast.walk(f):
+            if isinstance(c, ast.Call) and dotted(c.func) == 'open':
+                mode = c.args[1] if len(c.args) > 1 else next((k.value for k in c.keywords if k.arg == 'mode'), None)
+                if isinstance(mode, ast.Constant) and isinstance(mode.value, str) and mode.value[:1] in ('w', 'a', 'x'):
+                    writes.append(c)
+        if not writes:
+            continue
+        pos = _preorder(f)
+        last_write = max(pos[id(w)] for w in writes)
+        for rname in readers:
+            n += 1
+            run.subject(rule)
+            clears = [pos[id(c)] for c in ast.walk(f) if isinstance(c, ast.Call) and dotted(c.func) == rname + '.cache_clear']
+            reads = [pos[id(c)] for c in ast.walk(f) if isinstance(c, ast.Call) and dotted(c.func) == rname]
+            if any(c > last_write for c in clears):
+                run.ok(rule, '%s invalidates %s after writing' % (fname, rname), 'cache_clear() after the last write', sample=False)
+            elif clears and not any(r > min(clears) for r in reads):
+                run.ok(rule, '%s invalidates %s before writing' % (fname, rname), 'cache_clear() and no memoised read afterwards', sample=False)
+            else:
+                run.fail(rule, '%s|%s|stale-file-memo:%s' % (mi.name, fname, rname), mi.relpath, writes[-1].lineno,
+                         "%s writes a file while %s memoises file contents (functools cache): %s, so after the write the memo still holds what "
+                         "the file contained before and later reads return the old data"
+                         % (fname, rname, 'the memo is cleared before the old content is read through it again' if clears else 'the memo is never cleared'))
+    return n
+
+
 def last_call_memos(run, rule, mi, name, fn):
     """'global _last, _value; if arg is not _last: _value = f(arg); _last = arg' -- a one-entry memo keyed by the *identity* of an array:
     the array can be edited in place between two calls, the identity stays, the memoised value is stale."""
@@ -290,6 +349,8 @@ def check_caches(run, modules, rule, functions=None, prog=None):
         containers = {n for n, v in mi.assigns.items() if _is_container(v)}
         ncont += len(containers)
         fns = list((n, f, None) for n, f in mi.functions.items())
+        if functions is None:
+            nstores += memoised_file_readers(run, rule, mi)
         for cname, cnode in mi.classes.items():
             _class_level(run, rule, mi, cname, cnode)
             inst = set()
@@ -309,6 +370,13 @@ def check_caches(run, modules, rule, functions=None, prog=None):
                 continue
             nstores += local_memos(run, rule, mi, name, fn)
             nstores += last_call_memos(run, rule, mi, name, fn)
+            from .rules._purity import stale_loop_variable
+            for r_, v_, l_, w_ in stale_loop_variable(fn):
+                nstores += 1
+                run.subject(rule)
+                run.fail(rule, '%s|%s|stale-loop-variable:%s' % (mi.name, name, v_), mi.relpath, r_.lineno,
+                         "%s iterates over '%s' with '%s' but its body reads '%s', the variable of the earlier loop that filled '%s': every "
+                         "iteration uses the last element that loop saw instead of its own" % (name, l_, w_, v_, l_))
             if inst is not None and not name.split('.')[-1].startswith('_'):
                 # a result array that is also kept on the instance and refilled by the next call is shared between results
                 from .rules._purity import returns_held_buffer
